@@ -250,13 +250,14 @@ Definition read_section (s : bytes) (n : Z) : bytes * serr * bytes :=
 
 (* ---------- ReadFrom ---------- *)
 Record pfile := { pf_data : bytes; pf_name : bytes; pf_err : bool }.
-Inductive rf_status := RfOk | RfHeaderErr | RfSectionErr | RfDateErr | RfDateUnknown.
+Inductive rf_status := RfOk | RfHeaderErr (eof : bool) | RfSectionErr (e : serr) | RfDateErr | RfDateUnknown.
 Record parsed := { p_hdr : header; p_body : bytes; p_files : list pfile; p_status : rf_status }.
 
 Definition asc_space_tab (b : N) : bool :=
   (b =? 9) || (b =? 10) || (b =? 11) || (b =? 12) || (b =? 13) || (b =? 32).
 
-Fixpoint read_files (vals : list bytes) (s : bytes) (err : bool) : list pfile * bool * bytes :=
+(* err: the error of the last section read so far (Go keeps only the last one) *)
+Fixpoint read_files (vals : list bytes) (s : bytes) (err : serr) : list pfile * serr * bytes :=
   match vals with
   | [] => ([], err, s)
   | v :: r =>
@@ -267,7 +268,7 @@ Fixpoint read_files (vals : list bytes) (s : bytes) (err : bool) : list pfile * 
       | (sz, Some name) =>
           let '(data, se, s1) := read_section s (atoi_ignore_err sz) in
           let bad := match se with SOk => false | _ => true end in
-          let '(fs, e, s') := read_files r s1 bad in
+          let '(fs, e, s') := read_files r s1 se in
           ({| pf_data := data; pf_name := name; pf_err := bad |} :: fs, e, s')
       end
   end.
@@ -280,14 +281,17 @@ Definition read_from (input : bytes) : parsed :=
       let '(body, se, s2) := read_section s1 (atoi_ignore_err (hget h str_Body)) in
       match se with
       | SOk =>
-          let '(files, ferr, _) := read_files (hvalues h str_File) s2 false in
-          let st := if ferr then RfSectionErr
-                    else match parse_date_ok (hget h str_Date) with
-                         | Some true => RfOk | Some false => RfDateErr | None => RfDateUnknown end in
+          let '(files, ferr, _) := read_files (hvalues h str_File) s2 SOk in
+          let st := match ferr with
+                    | SOk => match parse_date_ok (hget h str_Date) with
+                             | Some true => RfOk | Some false => RfDateErr | None => RfDateUnknown end
+                    | e => RfSectionErr e
+                    end in
           {| p_hdr := h; p_body := body; p_files := files; p_status := st |}
-      | _ => {| p_hdr := h; p_body := body; p_files := []; p_status := RfSectionErr |}
+      | e => {| p_hdr := h; p_body := body; p_files := []; p_status := RfSectionErr e |}
       end
-  | _ => {| p_hdr := h; p_body := []; p_files := []; p_status := RfHeaderErr |}
+  | HErrEOF => {| p_hdr := h; p_body := []; p_files := []; p_status := RfHeaderErr true |}
+  | HErrMalformed => {| p_hdr := h; p_body := []; p_files := []; p_status := RfHeaderErr false |}
   end.
 
 (* ---------- addresses ---------- *)
